@@ -60,6 +60,17 @@ func c13Scenarios() []c13Scenario {
 
 const c13Watch = 30 * time.Second
 
+// c13After bounds the wait for a return after cancel(). Its expiry alone
+// decides nothing: the verdict is "stuck" only if the dump shows the worker
+// parked, i.e. with no pending wake-up although cancel() has long returned.
+const c13After = 12 * time.Second
+
+// after this many hang verdicts a child stops: each costs a full watchdog and
+// the witnesses so far already decide the run
+const c13MaxStuck = 3
+
+var stuckTotal int
+
 var stuckSeen = map[string]int{}
 
 func childC13(args []string) {
@@ -70,7 +81,7 @@ func childC13(args []string) {
 	defer os.RemoveAll(dir)
 	for i := from; i < to; i++ {
 		sc := scs[i%len(scs)]
-		if stuckSeen[sc.Worker+"/"+sc.State] >= 2 {
+		if stuckSeen[sc.Worker+"/"+sc.State] >= 1 || stuckTotal >= c13MaxStuck {
 			out.add("scenarios_skipped_after_repeated_stuck_verdicts", 1)
 			continue // two witnesses of this hang are enough; each costs a full watchdog
 		}
@@ -222,11 +233,12 @@ func c13Ingest(seed int64, i int, sc c13Scenario, dir string, out *childOut) {
 	var err error
 	select {
 	case err = <-done:
-	case <-time.After(c13Watch):
+	case <-time.After(c13After):
 		stuck, why := classifyStacks(vlib.AllStacks(), fn)
+		stuckTotal++
 		if stuck {
 			stuckSeen[sc.Worker+"/"+sc.State]++
-			out.violation(sig+":stuck-after-cancel", fmt.Sprintf("worker still parked %s after cancel: %s", c13Watch, why), wit)
+			out.violation(sig+":stuck-after-cancel", fmt.Sprintf("worker still parked %s after cancel: %s", c13After, why), wit)
 		} else {
 			stuckSeen[sc.Worker+"/"+sc.State]++
 			out.inconclusive(sig + ": no return within the watchdog but worker not parked: " + why)
@@ -352,8 +364,9 @@ func c13Read(seed int64, i int, sc c13Scenario, out *childOut) {
 	cancel()
 	select {
 	case <-done: // any return value is acceptable after cancellation
-	case <-time.After(c13Watch):
+	case <-time.After(c13After):
 		stuck, why := classifyStacks(vlib.AllStacks(), "auditd.(*Auditd).Read")
+		stuckTotal++
 		if stuck {
 			out.violation(sig+":stuck-after-cancel", "Read still parked after cancel: "+why, wit)
 		} else {
